@@ -31,7 +31,7 @@ def main(tier, seed, replay=None):
         rnd += [cl.Config(n=2, crash=2, restart=2, cut=2, t=4)]
     return cc.run('C07', tier, seed, LABELS, [], e1, [], ['StepsC07'], sim, rnd,
                   n_beh=48 if q else 400, beh_depth=150, n_rnd=40 if q else 400, rnd_steps=250,
-                  e1_timeout=600 if q else 2400, inject=False,
+                  e1_timeout=600 if q else 1500, inject=False,
                   extra_scenarios=[cl.hold_distribution_scenarios],
                   notes=['the process part of C07 (processes of a lost instance become FATAL) is decided with C11 '
                          '(Invalidate) and C12'])
